@@ -3245,7 +3245,10 @@ static int expand_define () {
               if (c == ',' && !parcnt && !dquote && !squote)
                 {
                   *q++ = 0;
-                  args[++n] = q;
+                  /* the NARGS-th comma ends the loop ("Maximum macro argument count
+                   * exceeded" below); args[] has no slot for what follows it */
+                  if (++n < NARGS)
+                    args[n] = q;
                 }
               else if (parcnt < 0)
                 {
